@@ -9,6 +9,8 @@ import (
 
 // IsHunting returns true if the ip is activelly hunted via a goroutine
 func (h *Handler) IsHunting(ip netip.Addr) bool {
+	h.arpMutex.Lock() // the hunt list is a map written by StartHunt/StopHunt under this lock
+	defer h.arpMutex.Unlock()
 	_, b := h.findHuntByIP(ip)
 	return b
 }
